@@ -85,82 +85,12 @@ def check(prog, res, tier):
                            rule='C19.a.mci_ipm_encode', unknown_ok=benign_unknown))
 
     # ---- C19.a the command-line glue of the two encoders: file names -> binary files, --no1014blocking -> both formats vbs
+    from .tools import cli_glue_ob
     for mod, tool in (('cli.mci_ipm_encode', 'mci_ipm_encode'), ('cli.mci_ipm_param_encode', 'mci_ipm_param_encode')):
-        if not (prog.has_func(f'{mod}.cli_run') and prog.has_func(f'{mod}.{tool}')):
-            continue
-        cfi = prog.func(f'{mod}.cli_run')
-        tfi = prog.func(f'{mod}.{tool}')
-
-        def tool_summary(it, f, args, kwargs, node, self_obj):
-            names = [a.arg for a in f.node.args.args]
-            b = dict(zip(names, args))
-            b.update({k: v for k, v in kwargs.items() if k != '**'})
-            extra = kwargs.get('**')
-            it.user.setdefault('tool_calls', []).append((b, extra))
-            return ConstV(None)
-
-        def entry_c(it):
-            nb = SymV('no1014blocking', 'bool')
-            # both settings of the switch are explored whether or not the code tests it
-            it.binds[('truth', 'no1014blocking')] = it.choose(2, '--no1014blocking given / not given') in (0, None)
-            inf = SymV('in_format', 'str', choices=('vbs', '1014'))
-            outf = SymV('out_format', 'str', choices=('vbs', '1014'))
-            inn, outn = it.sym_str('in_filename', lo=1), it.sym_str('out_filename', lo=1)
-            ie, oe = truthy(it, 'in_encoding'), truthy(it, 'out_encoding')
-            it.user.update(nb=nb, inf=inf, outf=outf, inn=inn, outn=outn, ie=ie, oe=oe)
-            return it.call_function(cfi, [], {'in_filename': inn, 'out_filename': outn, 'in_encoding': ie, 'out_encoding': oe,
-                                              'no1014blocking': nb, 'in_format': inf, 'out_format': outf, 'debug': ConstV(False)})
-        summ_c = {tfi.short: tool_summary}
-        if prog.has_func('cli.print_banner'):
-            # prints the parameters, nothing else (iterating the parameter dict and indexing it with its own keys)
-            summ_c[prog.func('cli.print_banner').short] = lambda it, f, args, kwargs, node, self_obj: ConstV(None)
-        runs_c = Runs(prog, entry_c, summaries=summ_c, res=res)
-
-        def chk_c(p, mode, tool=tool):
-            if p.outcome != 'return':
-                return [definite(f'cli_run raises {p.value!r}')] if p.outcome == 'raise' else []
-            it = p.interp
-            u = it.user
-            calls = u.get('tool_calls', [])
-            if len(calls) != 1:
-                return [definite(f'{tool} is called {len(calls)} times by cli_run')]
-            b, extra = calls[0]
-
-            def arg(name):
-                if name in b:
-                    return it.resolve(b[name])
-                if isinstance(extra, DictV) and name in extra.items:
-                    return it.resolve(extra.items[name])
-                return None
-            fails = []
-            opens = {e.data['file']: e for e in p.evs('open')}
-            for role, name, fname, mode_ in (('input', 'in_file', u['inn'], 'rb'), ('output', 'out_file', u['outn'], 'wb')):
-                f = arg(name)
-                e = opens.get(f)
-                if e is None:
-                    fails.append(soft(f'the {role} file handed to {tool} is not a file opened by cli_run: {f!r}'))
-                    continue
-                a = e.data['args']
-                if not (a and it.resolve(a[0]) is fname):
-                    fails.append(definite(f'the {role} file is opened from {a[0] if a else None!r}, not from the {role} file name', e.node))
-                if f.mode != mode_:
-                    fails.append(definite(f'the {role} file is opened with mode {f.mode!r}, not {mode_!r}', e.node))
-            nb = it.binds.get(('truth', 'no1014blocking'))
-            for name, sym in (('in_format', u['inf']), ('out_format', u['outf'])):
-                v = arg(name)
-                if nb:
-                    if not (isinstance(v, SeqV) and v.is_lit() and v.lit_value() == 'vbs'):
-                        fails.append(definite(f'--no1014blocking is given but {name} reaches {tool} as {v!r}, not "vbs"'))
-                elif v is not sym:
-                    fails.append(definite(f'{name} reaches {tool} as {v!r}, not the value chosen on the command line'))
-            for name, sym in (('in_encoding', u['ie']), ('out_encoding', u['oe'])):
-                if arg(name) is not sym:
-                    fails.append(definite(f'{name} reaches {tool} as {arg(name)!r}, not the value chosen on the command line'))
-            return fails
-        res.add(runs_c.judge('C19.a', f'{mod}.cli_run: the named files are opened in binary mode and handed to {tool} with the chosen '
-                                      f'encodings and formats; --no1014blocking makes both formats vbs', func_where(cfi),
-                             "if kwargs.get('no1014blocking'): kwargs['in_format'] = kwargs['out_format'] = 'vbs'", chk_c,
-                             rule=f'C19.a.cli.{tool}', unknown_ok=benign_unknown))
+        ob = cli_glue_ob(prog, res, 'C19.a', mod, tool, 'in_file', 'out_file', 'rb', 'wb',
+                         passthrough=('in_encoding', 'out_encoding'), formats_switch=True)
+        if ob is not None:
+            res.add(ob)
 
     # ---- C19.a mideu.convert
     if prog.has_func('cli.mideu.convert'):
